@@ -118,25 +118,35 @@ var mHangOneLevel = Mutant{"link searches hanging comments only below a statemen
 var mNoFileExtent = Mutant{"RestoreFile does not record the extent of the file", fR, "\tsetFileExtent(f, token.Pos(ff.Base()), token.Pos(ff.Base()+ff.Size()))\n", ""}
 var mGotypesC = Mutant{"gotypes resolver gives C.x the path of the cgo pseudo-package", "decorator/resolver/gotypes/resolver.go", "\t\tif pn.Imported().Path() == \"C\" {", "\t\tif false {"}
 
+// round 3 of the hunt (H12–H15): the unrepaired forms of the defects that were repaired
+var mVendorRawScan = Mutant{"updateImports compares identifier paths with the restorer's raw (vendored) path", fR, "if n.Path == stripVendor(r.Path) {", "if n.Path == r.Path {"}
+var mVendorRawIdent = Mutant{"restoreIdent compares the identifier's path with the restorer's raw (vendored) path", fR, "if n.Path != stripVendor(r.Path) {", "if n.Path != r.Path {"}
+var mGoastNilFile = Mutant{"goast walks a nil file", "decorator/resolver/goast/resolver.go", "\tif file == nil {\n", "\tif file == nil && false {\n"}
+var mGopkgsWritesConfig = Mutant{"gopackages configures the receiver's Config on every call", "decorator/resolver/gopackages/resolver.go", "\tcfg.Tests = false\n", "\tcfg.Tests = false\n\tr.Config.Tests = false\n"}
+var mFileEndNoBase = Mutant{"File.FileEnd without the file's base", fR, "token.Pos(ff.Base()+ff.Size())", "token.Pos(ff.Size()+1)"}
+var mLinesTruncated = Mutant{"RestoreFile truncates and refills the line table it handed out", fR, "r.lines = []int{0}", "r.lines = append(r.lines[:0], 0)"}
+var mSpacingOr = Mutant{"link ORs the spacing into the table", fDF, "\t\t\t\t\tf.before[nodeBefore] = spaceType\n", "\t\t\t\t\tf.before[nodeBefore] |= spaceType\n"}
+var mErrCheckWeakened = Mutant{"Load returns DecorateFile's error only under an extra condition", "decorator/load.go", "\t\t\t\tfile, err := p.Decorator.DecorateFile(f)\n\t\t\t\tif err != nil {", "\t\t\t\tfile, err := p.Decorator.DecorateFile(f)\n\t\t\t\tif err != nil && len(goFiles) > 1 {"}
+
 // SelfTestMutants lists, per property, the mutants its check must catch.
 var SelfTestMutants = map[string][]Mutant{
 	"C01": {mTokenLen, mDropTok, mElseGuard, mFragNoChild, mNoParseComments, mFileScope, mDecKey, mCrossFile, mAvoidGroup, mEndAtPos, mInnerAtToken, mAttachedStops, mAdjustedLine, mTextLen, mCommentEnd, mLineAtNodeEnd, mHangOnlyEmpty, mHangOneLevel, mLineCommentAtEnd},
 	"C02": {mDecKey, mCloneDropDec, mSpaceLast, mCondDec, mCrossFile, mEndAtPos, mAttachedStops, mHangOnlyEmpty},
-	"C03": {mDropTok, mDropChildDeco, mFragNoChild, mElseGuard, mCrossFile, mAvoidGroup, mAdjustedLine, mTextLen, mCommentEnd, mLineAtNodeEnd, mSpacingOverwritten},
+	"C03": {mDropTok, mDropChildDeco, mFragNoChild, mElseGuard, mCrossFile, mAvoidGroup, mAdjustedLine, mTextLen, mCommentEnd, mLineAtNodeEnd, mSpacingOverwritten, mSpacingOr},
 	"C04": {mSwapDecs, mEndFlag, mCondDec},
 	"C05": {mSpaceNoFresh, mSpaceEmpty3, mSpaceLast, mNoAdvanceNL, mLineAtNodeEnd, mLineCommentAtEnd},
 	"C06": {mCloneAlias, mCloneDropDec, mCloneShareDec, mDupFlag, mDeleteReg, mClonePath},
-	"C07": {mNoSort, mIdentNoPeriod, mResolveAll, mCgoNamed, mCgoEmptyName, mParensAlwaysDropped, mAskResolverForC},
+	"C07": {mNoSort, mIdentNoPeriod, mResolveAll, mCgoNamed, mCgoEmptyName, mParensAlwaysDropped, mAskResolverForC, mVendorRawScan, mVendorRawIdent},
 	"C08": {mAlwaysSort, mMergeOrder, mIdentNoPeriod, mStoreBeforeErr, mResolveAll, mCgoNamed, mCgoEmptyName, mAskResolverForC},
-	"C09": {mAvoidTypo, mForceX, mNoVendorLocal, mFieldPath, mRawFile, mDropPath, mSelName, mSelPathCond, mGoastStopEarly, mLocalPath, mGotypesC},
-	"C10": {mDropPath, mSelName, mSelPathCond, mSelFromAlias, mForceX, mNoVendorLocal, mClonePath},
+	"C09": {mAvoidTypo, mForceX, mNoVendorLocal, mFieldPath, mRawFile, mDropPath, mSelName, mSelPathCond, mGoastStopEarly, mLocalPath, mGotypesC, mGoastNilFile},
+	"C10": {mDropPath, mSelName, mSelPathCond, mSelFromAlias, mForceX, mNoVendorLocal, mClonePath, mVendorRawScan, mVendorRawIdent},
 	"C11": {mDropMapReg, mLateMapReg, mDropChildDeco, mDeleteReg, mBackMapSel},
-	"C12": {mCursorBack, mNoAdvanceNL, mAddFileEarly, mPosNotCursor, mLinesReuse, mKeepLineZero, mLineAtNodeEnd, mImplicitSemiNoPos, mNoFileExtent, mLineCommentAtEnd},
+	"C12": {mCursorBack, mNoAdvanceNL, mAddFileEarly, mPosNotCursor, mLinesReuse, mKeepLineZero, mLineAtNodeEnd, mImplicitSemiNoPos, mNoFileExtent, mLineCommentAtEnd, mFileEndNoBase},
 	"C13": {mWalkDrop, mWalkOrder, mWalkNoNil},
 	"C14": {mApplyName, mApplyDrop, mIterStep, mUnsortedFiles, mWalkDrop},
 	"C15": {mNilFileGuard, mUnguardChild, mNewPanic, mRawFile, mNoPathValidation},
-	"C16": {mUnlockEarly, mGlobalWrite, mGoroutine, mNoSort},
-	"C17": {mSwallowErr, mErrNoWrap, mStoreBeforeErr, mDecoDropErr},
+	"C16": {mUnlockEarly, mGlobalWrite, mGoroutine, mNoSort, mGopkgsWritesConfig, mLinesTruncated},
+	"C17": {mSwallowErr, mErrNoWrap, mStoreBeforeErr, mDecoDropErr, mErrCheckWeakened},
 	"C18": {mObjLate, mScopeNoOuter, mExtrasGate, mNewPkgErr, mScopeInsert},
 	"C19": {mAppendAlias, mAppendOrder, mPrependClip},
 	"C20": {mWriteFirst, mSharedBuf, mExtraWriter},
